@@ -41,7 +41,10 @@
 //!   when the delivered bytes are not a prefix of the reference output,
 //!   when a re-save of the same document object to a healthy sink fails or does not load back to
 //!   the content the reference output loads to;
-//!   when a save leaves the document in a state that is neither the original nor that of a successful save;
+//!   when a save leaves the document in a state that is neither the original nor that of a successful save (plain saves: up to
+//!   the raise of max_id to the largest object number; IncrementalDocument: new_document's max_id / trailer exactly the original
+//!   or those of a successful save), or changes anything else: version, binary mark, objects; for an IncrementalDocument the
+//!   previous bytes (`get_prev_documents_bytes()`) or the previous document;
 //!   for save(path): FAIL when it returns Ok but the file does not hold the complete output (or the device
 //!   refused a write), when it returns an error although the device took everything, when the error is not the
 //!   device's, when the file content is not a prefix of the complete output; the same re-save check follows.
@@ -501,6 +504,43 @@ fn residue_verdict(rf: &Reference, after: &Sx, ok: bool) -> Option<String> {
     None
 }
 
+/// what NO save may touch (Model/SaveState.v: a save changes max_id and the trailer of the document it writes, nothing else;
+/// ComposeSink.with_state / ComposeSinkInc.with_inc_state): version, binary mark and objects of the document; for an
+/// IncrementalDocument also the previous bytes (`get_prev_documents_bytes()`) and the previous document, which
+/// save_internal only reads (C19_incremental_failed_save_residue: `is_prev st' = is_prev st`)
+fn frame_verdict(base: &Target, t: &Target, ok: bool) -> Option<String> {
+    let how = if ok { "a successful save" } else { "a failed save" };
+    if let (Target::Inc(b), Target::Inc(a)) = (base, t) {
+        if a.get_prev_documents_bytes() != b.get_prev_documents_bytes() {
+            return Some(format!(
+                "{} changed the previous bytes of the IncrementalDocument ({} -> {} bytes)",
+                how,
+                b.get_prev_documents_bytes().len(),
+                a.get_prev_documents_bytes().len()
+            ));
+        }
+        let (pa, pb) = (a.get_prev_documents(), b.get_prev_documents());
+        if pa.max_id != pb.max_id
+            || pa.trailer != pb.trailer
+            || pa.version != pb.version
+            || pa.binary_mark != pb.binary_mark
+            || pa.xref_start != pb.xref_start
+            || std::mem::discriminant(&pa.reference_table.cross_reference_type) != std::mem::discriminant(&pb.reference_table.cross_reference_type)
+            || pa.objects != pb.objects
+        {
+            return Some(format!("{} changed the previous document of the IncrementalDocument", how));
+        }
+    }
+    let (da, db) = (t.doc(), base.doc());
+    if da.version != db.version || da.binary_mark != db.binary_mark {
+        return Some(format!("{} changed the version or the binary mark of the document", how));
+    }
+    if da.objects != db.objects {
+        return Some(format!("{} changed the objects of the document ({} -> {} objects)", how, db.objects.len(), da.objects.len()));
+    }
+    None
+}
+
 /// (<rc> <delivered length> <max_id> <Size> <resave same>), or (hang) / (panic)
 fn row_sx(o: &Outcome) -> Sx {
     match &o.lost {
@@ -570,6 +610,9 @@ fn one_run(w: &Watch, at: &str, base: &Target, full: &[u8], rf: &Reference, scri
         (Err(e), None) => first.fail(format!("sink never failed but save returned Err({:?})", e.kind())),
     }
     if let Some(v) = residue_verdict(rf, &after, r.is_ok()) {
+        first.fail(v);
+    }
+    if let Some(v) = frame_verdict(base, &t, r.is_ok()) {
         first.fail(v);
     }
     // a later save of the same document object to a healthy sink
@@ -801,6 +844,9 @@ fn path_run(w: &Watch, base: &Target, full: &[u8], rf: &Reference, target: PathT
     if let Some(v) = residue_verdict(rf, &after, r.is_ok()) {
         first.fail(v);
     }
+    if let Some(v) = frame_verdict(base, &t, r.is_ok()) {
+        first.fail(v);
+    }
     // a later save of the same document object to a healthy sink
     let mut out2: Vec<u8> = vec![];
     let r2 = match caught(w, &format!("the re-save to a healthy sink after save(path) to {:?}", target), || t.save_to(&mut out2)) {
@@ -924,13 +970,15 @@ fn run_case(x: &Sx, w: &Watch) -> (Sx, String) {
     let rf = Reference {
         content: if wf { Some(content_of(&full)) } else { None },
         before: base.state_sx(),
-        before_raised: Sx::tagged(
-            "state",
-            vec![
-                Sx::num(base.doc().objects.keys().next_back().map_or(base.doc().max_id, |k| k.0.max(base.doc().max_id))),
-                dict_to_sx(&base.doc().trailer),
-            ],
-        ),
+        // (IncrementalDocument::save_internal has no such raise: `top = None` in Model/SaveState.v, so a failed incremental
+        // save must leave max_id itself untouched -- C19_incremental_failed_save_residue)
+        before_raised: match &base {
+            Target::Inc(_) => base.state_sx(),
+            Target::Plain(d) => Sx::tagged(
+                "state",
+                vec![Sx::num(d.objects.keys().next_back().map_or(d.max_id, |k| k.0.max(d.max_id))), dict_to_sx(&d.trailer)],
+            ),
+        },
         after_ok: ref_doc.state_sx(),
         cut: a[4].as_u64().unwrap_or(0) as usize,
     };
